@@ -14,6 +14,7 @@ const BIG_NAMES: [&str; 17] = ["FiberPool::parallel_map", "concurrency::parallel
 fn big_case(cx: &mut Ctx, which: u64, rt: usize, n: usize, seed: u64, param: usize, fail: i64) {
     let cell = format!("big/{}", BIG_NAMES[which as usize]);
     let case = json!({"cell": "big", "kind": 25, "which": which, "rt": rt, "n": n, "seed": seed, "param": param as u64, "fail": fail, "ops": []});
+    if cx.objs.hangs.get() >= 3 { cx.sum.dist("skipped_after_three_calls_that_did_not_return"); return; }
     cx.sum.eval(&cell, &format!("bg {} {} {} {} {} {}", which, rt, n, seed, param, fail), n >= 2);
     s_only(cx, &cell);
     cx.sum.dist(&format!("big_n={}", if n < 1000 { "<1000" } else if n < 65536 { "<2^16" } else { ">=2^16" }));
@@ -21,7 +22,7 @@ fn big_case(cx: &mut Ctx, which: u64, rt: usize, n: usize, seed: u64, param: usi
     let want = seq_map(&xs, false);
     let xv = xs.clone();
     let r = guarded(|| with_rt(rt, async move {
-        tokio::time::timeout(Duration::from_secs(40), async move {
+        tokio::time::timeout(Duration::from_secs(20), async move {
             let cat = |mut a: Vec<i64>, b: Vec<i64>| -> ZResult<Vec<i64>> {
                 if b.iter().any(|x| x.rem_euclid(16) == 13) { return Err(ZiporaError::invalid_data("reduce failed")); }
                 a.extend(b);
@@ -110,7 +111,7 @@ fn big_case(cx: &mut Ctx, which: u64, rt: usize, n: usize, seed: u64, param: usi
     let want = if which == 16 { Some(xs.iter().map(|x| 3 * x + 1).collect()) } else { want };
     match r {
         Err(p) => cx.sum.fail(&cell, None, case, &format!("panicked: {}", p)),
-        Ok(Err(_)) => cx.sum.fail(&cell, None, case, "did not return (40 s)"),
+        Ok(Err(_)) => { cx.objs.hangs.set(cx.objs.hangs.get() + 1); cx.sum.fail(&cell, None, case, "did not return (20 s)") }
         Ok(Ok(got)) => { if got != want { cx.sum.fail(&cell, None, case, &format!("{} items: {}", n, diff(&got, &want))); } }
     }
 }
@@ -138,6 +139,7 @@ fn yield_cfg(preset: u64) -> YieldConfig {
 fn yieldops_case(cx: &mut Ctx, obj: u64, preset: u64, param: usize, ops: &[i64]) {
     let cell = "yield points (FiberYield / YieldPoint / GlobalYield / scheduler handle)";
     let case = json!({"cell": "yieldops", "kind": 26, "obj": obj, "preset": preset, "param": param as u64, "ops": ops});
+    if cx.objs.hangs.get() >= 3 { cx.sum.dist("skipped_after_three_calls_that_did_not_return"); return; }
     cx.sum.eval(cell, &format!("yo {} {} {} {:?}", obj, preset, param, ops), ops.len() >= 3);
     s_only(cx, cell);
     let opv = ops.to_vec();
@@ -186,7 +188,7 @@ fn yieldops_case(cx: &mut Ctx, obj: u64, preset: u64, param: usize, ops: &[i64])
     }));
     match r {
         Err(p) => cx.sum.fail(cell, None, case, &format!("op {} panicked: {}", at.load(Ordering::SeqCst), p)),
-        Ok(Err(_)) => cx.sum.fail(cell, None, case, &format!("op {} did not return (8 s): the task that yields never gets control back", at.load(Ordering::SeqCst))),
+        Ok(Err(_)) => { cx.objs.hangs.set(cx.objs.hangs.get() + 1); cx.sum.fail(cell, None, case, &format!("op {} did not return (8 s): the task that yields never gets control back", at.load(Ordering::SeqCst))) }
         Ok(Ok(())) => {}
     }
 }
